@@ -533,7 +533,8 @@ def render_lit(l):
 def render_pat(p):
     k = kind(p)
     if k == "Pat::Ident":
-        return ("ref " if p.get("by_ref") else "") + ("mut " if p.get("mutability") else "") + p["ident"]["sym"]
+        sub = p.get("subpat")
+        return ("ref " if p.get("by_ref") else "") + ("mut " if p.get("mutability") else "") + p["ident"]["sym"] + ("@" + render_pat(sub[1]) if sub else "")
     if k == "Pat::Wild":
         return "_"
     if k == "Pat::Tuple":
@@ -624,6 +625,14 @@ def render(e):
         return render_path(e["path"]) + "{" + ",".join((f["member"]["0"]["sym"] if kind(f["member"]) == "Member::Named" else "?") + ":" + render(f["expr"]) for f in e["fields"]) + "}"
     if k == "Expr::Return":
         return "return " + (render(e["expr"]) if e.get("expr") else "")
+    if k == "Expr::ForLoop":
+        return "for " + render_pat(e["pat"]) + " in " + render(e["expr"]) + "{" + ";".join(render_stmt(x) for x in e["body"]["stmts"]) + "}"
+    if k == "Expr::While":
+        return "while " + render(e["cond"]) + "{" + ";".join(render_stmt(x) for x in e["body"]["stmts"]) + "}"
+    if k == "Expr::Loop":
+        return "loop{" + ";".join(render_stmt(x) for x in e["body"]["stmts"]) + "}"
+    if k == "Expr::Continue":
+        return "continue"
     if k == "Expr::Break":
         return "break"
     return k
@@ -645,3 +654,25 @@ def unblock(e):
     while kind(e) == "Expr::Block" and len(e["block"]["stmts"]) == 1 and kind(e["block"]["stmts"][0]) == "Stmt::Expr" and e["block"]["stmts"][0].get("1") is None:
         e = e["block"]["stmts"][0]["0"]
     return e
+
+
+def render_norm(e):
+    """render() with closure parameters alpha-renamed ($1, $2, .. in binding order): insensitive to the
+    names chosen for closure parameters, formatting and `{ expr }` wrappers."""
+    import copy
+    import re as _re
+
+    names = []
+    for cl, _ in find(e, "Expr::Closure"):
+        for p in cl["inputs"]:
+            for n in pat_idents(p):
+                if n not in names:
+                    names.append(n)
+    txt = render(e)
+    for i, n in enumerate(names):
+        txt = _re.sub(r"(?<![A-Za-z0-9_\"#{])%s(?![A-Za-z0-9_\"}])" % _re.escape(n), f"${i + 1}", txt)
+    return txt
+
+
+def fn_text(fn):
+    return ";".join(render_stmt(s) for s in fn.block["stmts"])
